@@ -229,6 +229,11 @@ func runDPT(e *Env) {
 					if e.Choose("wl.junk2", 2) == 0 {
 						junk = fmt.Sprintf("%d.%03d", 200+e.Choose("wl.jm", 50), e.Choose("wl.js", 1000))
 					}
+					if e.Choose("wl.junk3", 3) == 0 {
+						// a registered name with something behind or in front of it
+						n := names[e.Choose("wl.name", len(names))]
+						junk = []string{n + "0", n + "\x00", n + "\x00\x00\x00", n + " RGBW", "0" + n, n + ".", n[:len(n)-1]}[e.Choose("wl.junk3k", 7)]
+					}
 					if seen[junk] {
 						continue
 					}
